@@ -72,7 +72,9 @@ package dsl
 //@   requires value != nil && definitionMeta != nil
 //@ func UnmarshalTypeYAML
 //@   entry
+//@   property C10
 //@   requires value != nil
+//@   ensures nil_type_only_for_a_null_node: result1 == nil && value.Tag != "!!null" ==> result0 != nil
 //@ func UnmarshalUnionYAML
 //@   entry
 //@   property C10
@@ -83,7 +85,20 @@ package dsl
 //@   requires value != nil
 //@ func UnmarshalGenericNode
 //@   entry
+//@   property C10
 //@   requires value != nil
+//@   ensures result1 == nil ==> result0 != nil
+// participle never leaves a nil entry in a repeated capture (library fact, trusted)
+//@ elems-nonnil *dsl/parser.Type
+//@ func convertType
+//@   property C10
+//@   requires ast != nil
+//@   invariant 1: t != nil
+//@   ensures result != nil
+//@ func applyTypeTail
+//@   property C10
+//@   requires inner != nil
+//@   ensures result != nil
 //@ func UnmarshalEnumValues
 //@   entry
 //@   property C10
@@ -92,11 +107,73 @@ package dsl
 //@   invariant 1: len(vals) * 2 == i && (forall k in 0..len(vals) :: vals[k] != nil)
 //@ func parseError
 //@   requires node != nil
+// Expression nodes carry the position of their token (1-based, relative to the expression text); ParseExpression
+// then shifts it by the host node's position. A node without a position cannot produce a located diagnostic.
+//@ func nodeMetaFromPosition
+//@   property C10
+//@   ensures expression_nodes_keep_their_token_position: result.Line == pos.Line && result.Column == pos.Column
 //@ func createNodeMeta
 //@   requires yamlNode != nil
 //@ func UnmarshalFieldsOrProtocolStepsYAML
 //@   entry
 //@   requires value != nil && elements != nil
+
+// ---- expressionparser.go: termination and panic-freedom of the recursive-descent parser. Every function consumes
+// tokens or stops; the measure is the number of tokens left (lexRem, see stubs), with a rank that orders the functions
+// which call each other without consuming a token first. A function that succeeds has consumed at least one token
+// and returns a node.
+// lexer.MustSimple numbers its symbols downwards from EOF-1 (library fact, trusted): no symbol is the EOF type (-1).
+//@ axiom TokenTypeOpenParen < -1 && TokenTypeOpenBracket < -1 && TokenTypeCloseParen < -1 && TokenTypeCloseBracket < -1 && TokenTypeComma < -1 && TokenTypeColon < -1
+// The operator table (expressionparser.go, var operatorInfo) has exactly two entries that are not binary operators.
+//@ axiom forall t in -9223372036854775808..9223372036854775808 :: (t in operatorInfo) && !operatorInfo[t].IsBinary ==> t == TokenTypeOpenBracket || t == TokenTypeOpenParen
+//@ func parseExpr
+//@   property C10
+//@   requires lex != nil && lexRem(lex) >= 1
+//@   decreases 4 * lexRem(lex) + 2
+//@   ensures lexRem(lex) <= old(lexRem(lex)) && lexRem(lex) >= 1
+//@   ensures result1 == nil ==> result0 != nil && lexRem(lex) < old(lexRem(lex))
+//@ func parseExprWithPrecedence
+//@   property C10
+//@   requires lex != nil && lexRem(lex) >= 1
+//@   decreases 4 * lexRem(lex) + 1
+//@   variant 0: lexRem(lex)
+//@   invariant 0: lexRem(lex) < old(lexRem(lex)) && lexRem(lex) >= 1 && lhs != nil
+//@   ensures lexRem(lex) <= old(lexRem(lex)) && lexRem(lex) >= 1
+//@   ensures result1 == nil ==> result0 != nil && lexRem(lex) < old(lexRem(lex))
+//@ func parseAtom
+//@   property C10
+//@   requires lex != nil && lexRem(lex) >= 1
+//@   decreases 4 * lexRem(lex)
+//@   ensures lexRem(lex) <= old(lexRem(lex)) && lexRem(lex) >= 1
+//@   ensures result1 == nil ==> result0 != nil && lexRem(lex) < old(lexRem(lex))
+//@ func parseCall
+//@   property C10
+//@   requires lex != nil && lexRem(lex) >= 1 && target != nil
+//@   requires (*lex.Peek()).Type == TokenTypeOpenParen
+//@   decreases 4 * lexRem(lex)
+//@   variant 0: lexRem(lex)
+//@   invariant 0: lexRem(lex) < old(lexRem(lex)) && lexRem(lex) >= 1
+//@   ensures lexRem(lex) <= old(lexRem(lex)) && lexRem(lex) >= 1
+//@   ensures result1 == nil ==> result0 != nil && lexRem(lex) < old(lexRem(lex))
+//@ func parseSubscript
+//@   property C10
+//@   requires lex != nil && lexRem(lex) >= 1 && target != nil
+//@   requires (*lex.Peek()).Type == TokenTypeOpenBracket
+//@   decreases 4 * lexRem(lex)
+//@   variant 0: lexRem(lex)
+//@   invariant 0: lexRem(lex) < old(lexRem(lex)) && lexRem(lex) >= 1
+//@   ensures lexRem(lex) <= old(lexRem(lex)) && lexRem(lex) >= 1
+//@   ensures result1 == nil ==> result0 != nil && lexRem(lex) < old(lexRem(lex))
+//@ func parseSubscriptArg
+//@   property C10
+//@   requires lex != nil && lexRem(lex) >= 1
+//@   decreases 4 * lexRem(lex) + 3
+//@   ensures lexRem(lex) <= old(lexRem(lex)) && lexRem(lex) >= 1
+//@   ensures result1 == nil ==> result0 != nil && lexRem(lex) < old(lexRem(lex))
+//@ func combineOperands
+//@   property C10
+//@   requires lhs != nil && rhs != nil && tok != nil
+//@   ensures result1 == nil ==> result0 != nil
 
 // ---- small pure model queries used by the generators' contracts ------------------------------------------
 //@ func (*Array).IsFixed
@@ -271,6 +348,8 @@ package dsl
 // every element store in swept code; appends of parser-built nodes are address-of-composite literals) -----------
 //@ elems-nonnil *dsl.ProtocolStep *dsl.Field *dsl.TypeCase *dsl.ArrayDimension *dsl.EnumValue *dsl.ComputedField
 //@ elems-nonnil *dsl.Namespace *dsl.ProtocolDefinition *dsl.GenericTypeParameter
+// A nil Type stands for `null` and is legal only as TypeCase.Type; slices of types (generic arguments) never hold it.
+//@ elems-nonnil dsl.Type
 
 // The schema string of a protocol: a function of the protocol, the symbol table and the (unmodified) model.
 //@ func GetProtocolSchemaString
@@ -347,15 +426,22 @@ package dsl
 //@   ensures generic_arguments_are_compared: (len(newType.TypeArguments) > 0 || len(oldType.TypeArguments) > 0) && typeof(result) != *TypeChangeIncompatible ==> called(getBaseDefinition)
 
 // ---- C09: individual rules. "grew" = the pass reported at least one more error. ---------------------------------
-// A map key must be a primitive scalar type (aliases are looked through by GetUnderlyingType).
+// A map key must be a primitive scalar type (aliases are looked through by GetUnderlyingType). Whether a key is
+// primitive can only be read off a resolved type: the rule needs type resolution to have run (a key that failed
+// to resolve has been reported by resolveTypes already).
+//@ pass-order C09 dsl.Validate: dsl.resolveTypes < dsl.validateMaps
 //@ spec func keyUnderlying(m *Map) Type = GetUnderlyingType(m.KeyType)
-//@ spec func keyIsPrimitive(m *Map) bool = typeof(keyUnderlying(m)) == *SimpleType && keyUnderlying(m).(*SimpleType) != nil && (keyUnderlying(m).(*SimpleType).ResolvedDefinition == nil || typeof(keyUnderlying(m).(*SimpleType).ResolvedDefinition) == PrimitiveDefinition)
+//@ spec func keyIsPrimitive(m *Map) bool = typeof(keyUnderlying(m)) == *SimpleType && keyUnderlying(m).(*SimpleType) != nil && typeof(keyUnderlying(m).(*SimpleType).ResolvedDefinition) == PrimitiveDefinition
+// A key that is a type parameter of the enclosing generic definition cannot be judged there: the rule applies to
+// every instantiation instead, which the pass reaches through the resolved definition of a reference with type arguments.
+//@ spec func keyIsTypeParameter(m *Map) bool = typeof(keyUnderlying(m)) == *SimpleType && keyUnderlying(m).(*SimpleType) != nil && typeof(keyUnderlying(m).(*SimpleType).ResolvedDefinition) == *GenericTypeParameter
 //@ func validateMaps$1
 //@   property C09
 //@   requires errorSink != nil
 //@   ensures everything_but_maps_descends: typeof(node) != *Map ==> called("dsl.(Visitor).VisitChildren")
-//@   ensures non_primitive_key_is_an_error: typeof(node) == *Map && node.(*Map) != nil && !keyIsPrimitive(node.(*Map)) ==> len(errorSink.Errors) == old(len(errorSink.Errors)) + 1
-//@   ensures primitive_key_is_accepted: typeof(node) == *Map && node.(*Map) != nil && keyIsPrimitive(node.(*Map)) ==> len(errorSink.Errors) == old(len(errorSink.Errors))
+//@   ensures non_primitive_key_is_an_error: typeof(node) == *Map && node.(*Map) != nil && !keyIsPrimitive(node.(*Map)) && !keyIsTypeParameter(node.(*Map)) ==> len(errorSink.Errors) == old(len(errorSink.Errors)) + 1
+//@   ensures primitive_key_is_accepted: typeof(node) == *Map && node.(*Map) != nil && (keyIsPrimitive(node.(*Map)) || keyIsTypeParameter(node.(*Map))) ==> len(errorSink.Errors) == old(len(errorSink.Errors))
+//@   ensures instantiated_generics_are_checked: typeof(node) == *SimpleType && node.(*SimpleType) != nil && node.(*SimpleType).ResolvedDefinition != nil && len(node.(*SimpleType).ResolvedDefinition.GetDefinitionMeta().TypeArguments) > 0 ==> called("dsl.(Visitor).Visit")
 
 // Array dimension rules are checked on every array, and the pass always descends (arrays nest inside vectors, maps ...).
 //@ func validateArrayAndVectorDimensions$1
@@ -369,6 +455,16 @@ package dsl
 //@   ensures always_descends: called("dsl.(VisitorWithContext[Node]).VisitChildren")
 //@   ensures stream_outside_protocol_is_an_error: typeof(node) == *Stream && typeof(context) != *ProtocolDefinition ==> len(errorSink.Errors) == old(len(errorSink.Errors)) + 1
 //@   ensures stream_in_protocol_is_accepted: typeof(node) == *Stream && typeof(context) == *ProtocolDefinition ==> len(errorSink.Errors) == old(len(errorSink.Errors))
+// "directly": the item type of a vector, array, map or stream and the cases of a union hang below a *TypeCase; whatever
+// is below one is no longer the step's own type, so it must not be visited with the protocol as its context.
+//@   ensures nested_types_lose_the_protocol_context: typeof(node) == *TypeCase ==> typeof(lastArg("dsl.(VisitorWithContext[Node]).VisitChildren", 2)) != *ProtocolDefinition
+//@ observe-args dsl.(VisitorWithContext[Node]).VisitChildren
+
+// Union rules apply to every union of the model, also to one written as a generic type argument
+// (`Foo<[int, int]>`, `!generic {name: Foo, args: [[int, int]]}`): the pass descends below every node.
+//@ func validateUnionCases$1
+//@   property C09
+//@   ensures always_descends: called("dsl.(VisitorWithContext[bool]).VisitChildren")
 
 // Name rules: every definition other than the one being named is descended into.
 //@ func validateTypeDefinitionNames$1
